@@ -233,6 +233,9 @@ func init() {
 			if err != nil {
 				return "err-mac"
 			}
+			if i%5 == 3 {
+				mac[0] ^= 0xff // every fifth message of every UE arrives with a MAC that does not verify: refused, for all UEs at once
+			}
 			pkt := append([]byte{0x7e, 0x02}, mac...)
 			pkt = append(pkt, byte(i))
 			pkt = append(pkt, c...)
